@@ -45,7 +45,7 @@ ALIASES = {
 @st.composite
 def _cases(draw):
     prof = dict(gen.PROFILES["logic"], p_group_logic=0.4, p_entities=0.2, p_meta=0.15, p_repeat_count=0.3,
-                p_or_other=0.1, p_calc_on_visible=0.15, p_bool_logic=0.12, p_trigger=0.15, p_trigger_logic=0.7, p_lit_ws=0.08, p_legacy_meta=0.4)
+                p_or_other=0.1, p_calc_on_visible=0.15, p_bool_logic=0.12, p_trigger=0.15, p_trigger_logic=0.7, p_lit_ws=0.08, p_legacy_meta=0.4, p_percentage=0.4)
     g = gen.G(draw, prof)
     form = gen.build_form(draw, prof, g=g)
     if g.p("_", 0.7):
@@ -64,7 +64,7 @@ def _cases(draw):
         for n, _ in model.walk(form["nodes"]):
             if n["k"] == "q" and n["c"].get("type") in ("calculate",) and g.p("_", 0.5):
                 n["c"]["calculation"] = g.pick(["0.00005", "0.000025", "12", "2.5", "10000000000000000", "-0.00007", "0.1"])
-    return {"form": form}
+    return {"form": form, "legacy_types": g.p("_", 0.15)}
 
 
 def strategy(tier):
@@ -144,7 +144,11 @@ def expected_binds(form, root):
 def evaluate(case) -> Outcome:
     out = Outcome()
     form = case["form"]
-    status, res = common.run_form(form)
+    # a share of the forms is converted in the legacy spelling of its type cells ('add image prompt', ...): same binds, same parameters
+    as_written = common.legacy_types(form) if case.get("legacy_types") else form
+    if as_written is not form:
+        out.label("legacy-type-spelling")
+    status, res = common.run_form(as_written)
     if status == "crash":
         out.label("outcome:crash:" + crash_sig(res))
         return out
